@@ -1,0 +1,14 @@
+//go:build verif
+
+package cmd
+
+import "github.com/evolbioinfo/gotree/tree"
+
+// Verification hooks (build tag "verif"): give the /verif harness access to
+// unexported helpers of the prune command. Not compiled in normal builds.
+
+// VerifRandomTips calls randomTips.
+func VerifRandomTips(tr *tree.Tree, n int) []string { return randomTips(tr, n) }
+
+// VerifSpecificTips calls specificTips.
+func VerifSpecificTips(ref *tree.Tree, comp *tree.Tree) []string { return specificTips(ref, comp) }
